@@ -298,3 +298,22 @@ LEVEL_TEXT += _ADDR5B
 _ADDR5D = ' Borrowed: R07.2 (the field block stores the decoded value where the constructor call reads it).'
 EXPLANATION += _ADDR5D
 LEVEL_TEXT += _ADDR5D
+
+
+_run_before_r6b = run
+
+
+def run(repo, rep, tier):  # noqa: F811 -- round-6 remedies (core/round6.py)
+    _run_before_r6b(repo, rep, tier)
+    if getattr(rep, "borrowed", False):
+        return
+    from ..core import round6 as _r6b
+    _r6b.codec_dialect_merge_order(repo, rep, "R04.7")
+    _r6b.dispatcher_paths_agree(repo, rep, "R13.12")
+    _r6b.format_endpoints_agree(repo, rep, "R15.12")
+    _r6b.format_dialect_tables(repo, rep, "R03.8")
+
+
+_ADDR6C = " R04.7: format codecs merge the user's default_dialect onto the format dialect (`<Format>Dialect.merge(default_dialect)`), encoder and decoder alike. Borrowed: R13.12, R15.12, R03.8."
+EXPLANATION += _ADDR6C
+LEVEL_TEXT += _ADDR6C
